@@ -1,7 +1,7 @@
 (* Tie: the terms regenerated from the working tree (gen/G_AccessLog.v, rewritten on every run) are the terms the C34
    theorems are about, and the theorems restated over the regenerated terms. *)
 From Coq Require Import List NArith ZArith Bool String.
-From VGI Require Import Regex M_Wire M_AccessLog L_AccessLog L_AccessLogThm L_AccessLogHist L_AccessLogAll G_AccessLog P_C34.
+From VGI Require Import Regex M_Wire M_AccessLog L_AccessLog L_AccessLogThm L_AccessLogHist L_AccessLogAll L_AccessLogTs G_AccessLog P_C34.
 Import ListNotations.
 
 (* access_log.schema.json *)
@@ -133,6 +133,14 @@ Definition expected_recover_head : list str :=
 Lemma recover_tie : gen_recover_head = expected_recover_head.
 Proof. vm_compute; reflexivity. Qed.
 
+(* VgiJsonFormatter.formatTime (inherited by VgiAccessLogFormatter): UTC, strftime up to the dot, FLOOR milliseconds with
+   ":03d" -- [render_ts] (= render_ts_with true) was written against these two statements *)
+Definition expected_format_time : list str :=
+    [s "dt = datetime.fromtimestamp(record.created, tz=UTC)";
+     s "return dt.strftime('%Y-%m-%dT%H:%M:%S.') + f'{dt.microsecond // 1000:03d}Z'"].
+Lemma format_time_tie : gen_format_time = expected_format_time.
+Proof. vm_compute; reflexivity. Qed.
+
 (* ---- the theorems over the regenerated schema and shape: these are the statements about the source ---- *)
 Theorem C34_source_schema_valid : forall (fresh : nat -> str) tr dbg,
   (forall n, fresh n <> [] /\ field_ok (s_props gen_schema) (s "stream_id", JStr (fresh n)) = true) ->
@@ -166,3 +174,8 @@ Proof.
   rewrite shape_tie. intros tr dbg E q sid f e x c Hin HO Hne.
   exact (C34_full_message c E q sid f e x eq_refl Hin HO Hne).
 Qed.
+
+Theorem C34_source_timestamp_valid : forall y1 y2 y3 y4 m1 m2 d1 d2 h1 h2 i1 i2 s1 s2 micro,
+  Forall is_dig [y1; y2; y3; y4; m1; m2; d1; d2; h1; h2; i1; i2; s1; s2] -> (micro < 1000000)%N ->
+  field_ok (s_props gen_schema) (s "timestamp", JStr (render_ts [y1; y2; y3; y4; 45; m1; m2; 45; d1; d2; 84; h1; h2; 58; i1; i2; 58; s1; s2]%N micro)) = true.
+Proof. rewrite schema_tie. exact C34_timestamp_valid. Qed.
